@@ -122,6 +122,7 @@ func emit(v map[string]any) {
 type ctxKey string
 
 type reqInfo struct {
+	cancel context.CancelFunc
 	id   int
 	b    string
 	plan string
@@ -195,6 +196,12 @@ func (rt *fakeRT) RoundTrip(r *http.Request) (*http.Response, error) {
 		return mk(200, "hello from "+name), nil
 	case plan == "refuse":
 		return nil, errors.New("dial tcp: connection refused")
+	case plan == "cancel":
+		// the client goes away while the backend is working on the request
+		if info != nil && info.cancel != nil {
+			info.cancel()
+		}
+		return nil, context.Canceled
 	case plan == "abort":
 		resp := mk(200, "")
 		resp.Body = &failingBody{data: []byte("partial")}
@@ -404,7 +411,9 @@ func (s *sim) doReq(st step) {
 		info.held = make(chan string, 1)
 		s.held[st.ID] = info
 	}
-	ctx := context.WithValue(req.Context(), ctxKey("info"), info)
+	cctx, cancel := context.WithCancel(req.Context())
+	info.cancel = cancel
+	ctx := context.WithValue(cctx, ctxKey("info"), info)
 	ctx = context.WithValue(ctx, http.ServerContextKey, &http.Server{})
 	req = req.WithContext(ctx)
 	emit(map[string]any{"ev": "req", "id": st.ID, "client": client, "plan": st.Plan,
